@@ -121,6 +121,26 @@ Qed.
 Print Assumptions C14_program_parse_same_as_alone.
 """
 
+ATOMIC_V = """(* GENERATED by lib/c14.py -- second obligation: every update of a shared location is one atomic operation *)
+From Coq Require Import String List NArith.
+From Parsley Require Import Race RaceProofs.
+From C14gen Require Import Effects.
+Import ListNotations.
+
+Theorem effects_updates_atomic : atomic_update_defects program = [].
+Proof. vm_compute. reflexivity. Qed.
+Print Assumptions effects_updates_atomic.
+
+Theorem C14_program_updates_atomic : forall k h, In h (roots program k) ->
+  forall fl sl fs ss,
+    In fl (p_funcs program) -> In sl (f_sites fl) -> reachable program [h] (f_name fl) ->
+    In fs (p_funcs program) -> In ss (f_sites fs) -> reachable program [h] (f_name fs) ->
+    sharedb k sl = true -> sharedb k ss = true ->
+    s_aop sl = ALoad -> s_aop ss = AStore -> s_loc sl = s_loc ss -> False.
+Proof. exact (updates_atomic_generic program effects_updates_atomic). Qed.
+Print Assumptions C14_program_updates_atomic.
+"""
+
 REPORT_V = """(* GENERATED by lib/c14.py -- what the check computes on the generated summary, printed for the report *)
 From Coq Require Import String List NArith.
 From Parsley Require Import Race.
@@ -140,11 +160,16 @@ Definition show (c : conflict) : string := match c with
   | CRootMissing k r => "ROOT not found (" ++ sk k ++ "): " ++ r
   | CNoRoots k => "NO ROOTS (" ++ sk k ++ "): parsley.Parse / parsley.Evaluate not found"
   | CGlobalOfLocalType g ty => "package-level variable " ++ g ++ " holds an object of thread-local type " ++ ty
+  | CAtomicRMW k h f1 s1 f2 s2 => "NON-ATOMIC UPDATE of " ++ sl (s_loc s1) ++ ": one call of " ++ h ++ " [" ++ sk k ++ "] does "
+                               ++ "an atomic LOAD in " ++ f1 ++ " at " ++ s_pos s1 ++ " and a separate atomic STORE in " ++ f2 ++ " at " ++ s_pos s2
+                               ++ " (two threads can both load before either stores: lost update)"
   | CLocalInShared h m ty => "shared holder " ++ h ++ " (" ++ m ++ ") holds an object of thread-local type " ++ ty end.
 Set Printing Width 1000000.
 Set Printing Depth 1000000.
 Definition CONFLICTS := Eval vm_compute in map show (conflicts program).
 Print CONFLICTS.
+Definition ATOMICDEFECTS := Eval vm_compute in map show (atomic_update_defects program).
+Print ATOMICDEFECTS.
 Definition UNCLASSIFIED := Eval vm_compute in unclassified program.
 Print UNCLASSIFIED.
 Definition COUNTS := Eval vm_compute in (N.of_nat (length (reach program KParse)), N.of_nat (length (reach program KCtor)),
@@ -210,12 +235,13 @@ def run_workload(exe, args, procs=None, timeout=1200):
 
 def static_part(problems):
     """Extractor + generated obligations.  Returns a dict; 'fatal' set when the source cannot be analysed."""
-    st = {"race_free": False, "conflicts": None, "discharged": [], "undischarged": [], "assumptions": [], "stats": {}}
+    st = {"race_free": False, "updates_atomic": False, "conflicts": None, "discharged": [], "undischarged": [], "assumptions": [], "stats": {}}
     ok, out, exe = build_extractor()
     if not ok:
         st["fatal"] = "cannot build the extractor tools/effects:\n" + out[-3000:]
         return st
-    for f in ("Effects.v", "Effects.vo", "EffectsCheck.vo", "EffectsCheckSolo.vo", "EffectsReport.vo", "effects.json"):
+    for f in ("Effects.v", "Effects.vo", "EffectsCheck.vo", "EffectsCheckSolo.vo", "EffectsCheckAtomic.vo", "EffectsReport.vo",
+              "effects.json"):
         try:
             os.remove(os.path.join(WORK, f))
         except OSError:
@@ -231,17 +257,28 @@ def static_part(problems):
     open(os.path.join(WORK, "EffectsCheck.v"), "w").write(CHECK_V % {"repo": core.REPO})
     open(os.path.join(WORK, "EffectsCheckSolo.v"), "w").write(SOLO_V)
     open(os.path.join(WORK, "EffectsReport.v"), "w").write(REPORT_V)
+    open(os.path.join(WORK, "EffectsCheckAtomic.v"), "w").write(ATOMIC_V)
     rc, out = coqc("Effects.v")
     if rc != 0:
         problems.append({"kind": "generated-summary-does-not-compile", "log": out[-3000:]})
         return st
-    with ThreadPoolExecutor(max_workers=2) as ex:
+    with ThreadPoolExecutor(max_workers=3) as ex:
         fr = ex.submit(coqc, "EffectsReport.v")
         fc = ex.submit(coqc, "EffectsCheck.v")
+        fa = ex.submit(coqc, "EffectsCheckAtomic.v")
         rrc, rout = fr.result()
         crc, cout = fc.result()
+        arc, aout = fa.result()
+    anames = ["effects_updates_atomic", "C14_program_updates_atomic"]
+    if arc == 0:
+        st["updates_atomic"] = True
+        st["discharged"] += anames
+        st["assumptions"] += re.findall(r"Closed under the global context|Axioms:.*", aout)
+    else:
+        st["undischarged"] += anames
+        st["atomic_log"] = aout[-2000:]
     if rrc == 0:
-        st["conflicts"] = strings_of(rout, "CONFLICTS")
+        st["conflicts"] = (strings_of(rout, "CONFLICTS") or []) + (strings_of(rout, "ATOMICDEFECTS") or [])
         st["unclassified"] = strings_of(rout, "UNCLASSIFIED")
         m = re.search(r"COUNTS\s*=\s*\((\d+)(?:%N)?, (\d+)(?:%N)?, (\d+)(?:%N)?, (\d+)(?:%N)?, (\d+)(?:%N)?\)", rout)
         if m:
@@ -300,8 +337,8 @@ def main(tier, seed, replay=None):
     # (b) workload build in parallel with the extractor and the generated obligations
     with ThreadPoolExecutor(max_workers=2) as ex:
         fw = ex.submit(build_workload)
-        st = static_part(problems) if ok else {"race_free": False, "conflicts": None, "discharged": [], "undischarged": [],
-                                               "assumptions": [], "stats": {}}
+        st = static_part(problems) if ok else {"race_free": False, "updates_atomic": False, "conflicts": None, "discharged": [],
+                                               "undischarged": [], "assumptions": [], "stats": {}}
         wok, wout, wexe = fw.result()
     if st.get("fatal"):
         print("ERROR: %s" % st["fatal"])
@@ -309,8 +346,9 @@ def main(tier, seed, replay=None):
     if not wok:
         print("ERROR: cannot build the race workload against %s:\n%s" % (core.REPO, wout[-3000:]))
         return 2
-    core.log("C14: build + static part %.1fs; generated obligation %s" % (time.time() - t0,
-             "holds" if st["race_free"] else "FAILS"))
+    static_ok = st["race_free"] and st["updates_atomic"]
+    core.log("C14: build + static part %.1fs; generated obligations: effects_race_free %s, effects_updates_atomic %s" % (
+        time.time() - t0, "holds" if st["race_free"] else "FAILS", "holds" if st["updates_atomic"] else "FAILS"))
     conflicts = dedupe(st.get("conflicts"))
     for c in conflicts[:20]:
         core.log("C14: static conflict: " + c)
@@ -323,7 +361,7 @@ def main(tier, seed, replay=None):
         args = ["-goroutines", "8", "-constructors", "2", "-seconds", "12", "-seed", str(seed)]
         procs = None
     else:
-        args = ["-goroutines", "32", "-constructors", "8", "-seconds", "420", "-seed", str(seed)]
+        args = ["-goroutines", "32", "-constructors", "8", "-seconds", "420", "-construct-seconds", "40", "-seed", str(seed)]
         procs = 16
     runs = []
     r = None
@@ -333,18 +371,19 @@ def main(tier, seed, replay=None):
             r = run_workload(wexe, case.split(), None)
             r["corpus"] = meta.get("file")
             runs.append(r)
-            if r["race"]:
+            if r["race"] or (r["result"] or {}).get("construction", {}).get("failures"):
                 break
-    if not (r and r["race"]):
+    if not (r and (r["race"] or (r["result"] or {}).get("construction", {}).get("failures"))):
         r = run_workload(wexe, args, procs)
         runs.append(r)
-    if not st["race_free"] and ok and not r["race"] and not replay:
+    failed_dyn = lambda x: x["race"] or bool((x["result"] or {}).get("construction", {}).get("failures"))
+    if not static_ok and ok and not failed_dyn(r) and not replay:
         # search harder for a concrete failing schedule: more goroutines, other seeds
         for k in range(1, 4):
             a = ["-goroutines", "32", "-constructors", "8", "-seconds", "20", "-seed", str(seed + 100 * k)]
             r = run_workload(wexe, a, 16)
             runs.append(r)
-            if r["race"]:
+            if failed_dyn(r):
                 break
     core.log("C14: workload %s" % "; ".join("rc=%d runs=%s" % (x["rc"], (x["result"] or {}).get("runs")) for x in runs))
     # verdict
@@ -352,7 +391,8 @@ def main(tier, seed, replay=None):
     nviol = 0
     raced = [x for x in runs if x["race"]]
     mism = [x for x in runs if x["result"] and x["result"].get("mismatches")]
-    broken = [x for x in runs if not x["race"] and x["rc"] not in (0, 4)]
+    cons = [x for x in runs if (x["result"] or {}).get("construction", {}).get("failures")]
+    broken = [x for x in runs if not x["race"] and x["rc"] not in (0, 4, 5)]
     cmd = lambda x: "GORACE=halt_on_error=1 %s%s %s   # built by ./check C14 with go build -race against %s" % (
         ("GOMAXPROCS=%d " % x["procs"] if x.get("procs") else ""), wexe, " ".join(x["args"]), core.REPO)
     if raced:
@@ -363,12 +403,28 @@ def main(tier, seed, replay=None):
             "detector_report": x["stderr"][:30000], "workload_args": x["args"], "gomaxprocs": x.get("procs"),
             "corpus_case": x.get("corpus"),
             "workload_cmd": cmd(x), "static_obligation_effects_race_free": "holds" if st["race_free"] else "fails",
+            "static_obligation_effects_updates_atomic": "holds" if st["updates_atomic"] else "fails",
             "static_conflicts": conflicts[:50], "repo": core.REPO,
             "replay_cmd": "./check %s --replay <this file>" % ID})
         print("VIOLATION property=%s replay=%s" % (ID, path))
         if st["race_free"]:
             core.log("C14: the detector found a race although effects_race_free holds: the extractor or the classification "
                      "table missed an access")
+        exit_code, nviol = 1, nviol + 1
+    elif cons:
+        x = cons[0]
+        path = core.write_replay(ID, {
+            "property": ID, "kind": "concurrently-constructed-parsers-differ-from-sequentially-constructed",
+            "what": "memoized rules constructed by several goroutines at the same moment, combined into one Choice/Any: a rule "
+                    "does not recognise its own input although the same grammar constructed sequentially does "
+                    "(parsers may also be constructed concurrently)",
+            "report": x["result"]["construction"].get("report"), "failures": x["result"]["construction"].get("failures"),
+            "workload_args": x["args"], "gomaxprocs": x.get("procs"), "workload_cmd": cmd(x), "corpus_case": x.get("corpus"),
+            "static_obligation_effects_updates_atomic": "holds" if st["updates_atomic"] else "fails",
+            "static_conflicts": conflicts[:50], "repo": core.REPO, "replay_cmd": "./check %s --replay <this file>" % ID})
+        print("VIOLATION property=%s replay=%s" % (ID, path))
+        if st["updates_atomic"]:
+            core.log("C14: concurrently constructed parsers misbehave although effects_updates_atomic holds")
         exit_code, nviol = 1, nviol + 1
     elif mism:
         x = mism[0]
@@ -382,11 +438,13 @@ def main(tier, seed, replay=None):
     elif broken:
         x = broken[0]
         problems.append({"kind": "workload-failed", "rc": x["rc"], "stderr": x["stderr"][-3000:], "args": x["args"]})
-    if exit_code == 0 and ok and not st["race_free"]:
+    if exit_code == 0 and ok and not static_ok:
         path = core.write_replay(ID, {
             "property": ID, "kind": "obligation-broken",
-            "obligation": "effects_race_free : conflicts program = []  (work/C14/EffectsCheck.v, summary generated from %s)" % core.REPO,
-            "conflicting_sites": conflicts[:100], "coq_log": st.get("check_log", "")[-2000:],
+            "obligation": "%s  (work/C14, summary generated from %s)" % (
+                " and ".join(([] if st["race_free"] else ["effects_race_free : conflicts program = []"]) +
+                             ([] if st["updates_atomic"] else ["effects_updates_atomic : atomic_update_defects program = []"])), core.REPO),
+            "conflicting_sites": conflicts[:100], "coq_log": (st.get("check_log", "") + st.get("atomic_log", ""))[-3000:],
             "search": "race workload found no detector report in %d runs: %s" % (len(runs), [x["args"] for x in runs]),
             "problems": problems, "repo": core.REPO})
         print("VIOLATION property=%s replay=%s no-failing-input-found" % (ID, path))
@@ -408,7 +466,7 @@ def main(tier, seed, replay=None):
         "generated_obligations_undischarged": st["undischarged"],
         "print_assumptions": ["Closed under the global context"] * pr["closed"] + pr["axioms"] + st["assumptions"],
         "checker_cmd": ("make -C coq -j16 Race.vo RaceProofs.vo Props/C14.vo && coqc -Q coq Parsley coq/Props/C14.v && "
-                        "work/C14/effects $VERIF_REPO work/C14/Effects.v && cd work/C14 && for f in Effects EffectsCheck EffectsCheckSolo; "
+                        "work/C14/effects $VERIF_REPO work/C14/Effects.v && cd work/C14 && for f in Effects EffectsCheck EffectsCheckAtomic EffectsCheckSolo; "
                         "do coqc -Q ../../coq Parsley -Q . C14gen $f.v; done"),
         "trusted_base": TRUSTED,
         "evaluations": total_runs,
@@ -417,6 +475,7 @@ def main(tier, seed, replay=None):
         "streams": {"concurrent-parse-and-construct": total_runs},
         "samples": last.get("samples", []),
         "workload": [{"args": x["args"], "corpus": x.get("corpus"), "rc": x["rc"], "race_report": x["race"],
+                      "construction": (x["result"] or {}).get("construction"),
                       "mismatches": (x["result"] or {}).get("mismatches"), "runs": (x["result"] or {}).get("runs")} for x in runs],
         "extractor": st["stats"],
         "static_conflicts": conflicts[:50],
